@@ -10,10 +10,15 @@
   Not covered: the four `varatt_external` members are read by `ParseTOASTPointer` as `data[offset : offset+4]` with
   a running variable `offset` (2, 6, 10, 14 at run time), so they are not constant-bounded reads and do not occur
   in `Generated.SrcReads`; they are tied by the model and the correspondence family (`Proofs/Toast`, C08).
+
+  `toastVisible` (fixes/toast/21: PostgreSQL's HeapTupleSatisfiesToast on a raw tuple) has two constant-bounded reads,
+  `infomask` ← bytes 20..22 and `xmin` ← bytes 0..4: tied below to the members t_infomask and t_xmin of
+  `HeapTupleHeaderData` as written by `Spec.encTuple` (layout `HeapReads.tupleLayout`).
 -/
 import PgVerif.Generated.Src
 import PgVerif.Spec.Toast
 import PgVerif.Proofs.SrcTie.ReadsKit
+import PgVerif.Proofs.SrcTie.HeapReads
 namespace PgVerif.Proofs.SrcTie.ToastReads
 open PgVerif PgVerif.Spec.Toast PgVerif.Proofs.SrcTie.ReadsKit
 
@@ -66,5 +71,21 @@ theorem IsTOASTPointer_expected_fields_are_read :
 
 /-- the hypothesis of `enc_read` is satisfiable: `va_header` is byte 0, `va_tag` byte 1 -/
 example : layout.span "va_header".toList = some (0, 1) ∧ layout.span "va_tag".toList = some (1, 2) := by decide
+
+/-! ### toastVisible: the two header members PostgreSQL's TOAST visibility rule looks at -/
+
+def expectVisible : Expect :=
+  [fld "infomask".toList HeapReads.tupleLayout "t_infomask".toList, fld "xmin".toList HeapReads.tupleLayout "t_xmin".toList]
+
+/-- **Every constant-bounded read of `toastVisible` is one whole `HeapTupleHeaderData` member, the one its target names**
+(`infomask` ← t_infomask @20, `xmin` ← t_xmin @0) — and nothing else of the header (t_xmax @4 in particular) is read. -/
+theorem toastVisible_reads_are_spec_fields :
+    readsAreFields expectVisible Generated.SrcReads.toastVisible = true := by decide
+
+theorem toastVisible_expected_fields_are_read :
+    expectedAreRead expectVisible Generated.SrcReads.toastVisible = true := by decide
+
+example : HeapReads.tupleLayout.span "t_xmin".toList = some (0, 4) ∧ HeapReads.tupleLayout.span "t_infomask".toList = some (20, 22) := by
+  decide
 
 end PgVerif.Proofs.SrcTie.ToastReads
